@@ -39,11 +39,12 @@ const (
 var ccNames = []string{"nilfn", "nil", "err", "Canceled", "waitctx", "waitctx-err"}
 
 type ccScript struct {
-	Outcomes     []ccOutcome
-	Delays       []int // 0 none, 1 yield, 2 short sleep
-	Gate         bool  // hold the caller at CcallSpawned until all functions finished
-	CancelCaller int   // 0 never, 1 before the call, 2 during, 3 a deadline that has passed before the call, 4 a short timeout that expires during the call
-	WrapTokens   bool  // the functions' own errors wrap context.Canceled (they are still errors other than context.Canceled)
+	Outcomes       []ccOutcome
+	Delays         []int // 0 none, 1 yield, 2 short sleep
+	Gate           bool  // hold the caller at CcallSpawned until all functions finished
+	CancelCaller   int   // 0 never, 1 before the call, 2 during, 3 a deadline that has passed before the call, 4 a short timeout that expires during the call
+	WrapTokens     bool  // the functions' own errors wrap context.Canceled (they are still errors other than context.Canceled)
+	DeadlineTokens bool  // every other function's own error is context.DeadlineExceeded itself
 }
 
 func (s ccScript) String() string {
@@ -51,7 +52,7 @@ func (s ccScript) String() string {
 	for i, o := range s.Outcomes {
 		out += fmt.Sprintf("%s/%d ", ccNames[o], s.Delays[i])
 	}
-	return fmt.Sprintf("[%s] gate=%v cancel=%d wrap=%v", out, s.Gate, s.CancelCaller, s.WrapTokens)
+	return fmt.Sprintf("[%s] gate=%v cancel=%d wrap=%v dl=%v", out, s.Gate, s.CancelCaller, s.WrapTokens, s.DeadlineTokens)
 }
 
 func runC17(w *mon.Worker) {
@@ -106,6 +107,7 @@ func runC17(w *mon.Worker) {
 			sc.CancelCaller = 1 + r.IntN(4)
 		}
 		sc.WrapTokens = r.IntN(3) == 0
+		sc.DeadlineTokens = !sc.WrapTokens && sc.CancelCaller < 3 && r.IntN(3) == 0
 		if hasUncond || sc.CancelCaller != 0 {
 			// waiting functions only where something ends the call
 			for j := range sc.Outcomes {
@@ -159,6 +161,10 @@ func ccallCase(c *mon.Case, sc ccScript, sampled bool) {
 		f := &ccFn{outcome: sc.Outcomes[i], token: fmt.Errorf("token-%d", i)}
 		if sc.WrapTokens {
 			f.token = fmt.Errorf("token-%d: %w", i, context.Canceled)
+		}
+		if sc.DeadlineTokens && i%2 == 0 {
+			// context.DeadlineExceeded returned by a function (while the caller's context is live) is an error other than context.Canceled
+			f.token = context.DeadlineExceeded
 		}
 		fns[i] = f
 		if f.outcome == ccNilEntry {
@@ -297,9 +303,21 @@ func ccallCase(c *mon.Case, sc ccScript, sampled bool) {
 		c.Violate("panic", "ccall-panic", "CallConcurrently %s panicked: %v", sc, res.panicked)
 		return
 	}
+	// the call has returned: the argument slice is the caller's again. Recycle it at once - goroutines the call
+	// spawned but that have not started yet must already know which function they run
+	orig := append([]ccall.CallConcurrentlyFunc(nil), args...)
+	var foreignCalls atomic.Int64
+	for i := range args {
+		args[i] = func(context.Context) error { foreignCalls.Add(1); return nil }
+	}
 	// let every spawned function finish (waiting ones see the cancelled context)
 	if !mon.Quiesce(5 * time.Second) {
 		c.Inconclusive("no quiescence after return")
+		return
+	}
+	copy(args, orig)
+	if k := foreignCalls.Load(); k != 0 {
+		c.Violate("ccall", "ccall-ran-function-not-passed", "after CallConcurrently %s had returned %v the caller overwrote its argument slice; %d of the overwriting functions were run by the call", sc, res.err, k)
 		return
 	}
 	c.Count("calls_judged", 1)
